@@ -787,6 +787,8 @@ func (server *Server) registerCoreExecutors() {
 		}
 		opt.MINEXCLUSIVE = minEx
 		opt.MAXEXCLUSIVE = maxEx
+		offset, count := opt.Offset, opt.Count
+		opt.Offset, opt.Count = 0, -1
 
 		msg, err := server.userCommandHandler.ZRangeByScore(conn, key, min, max, opt)
 		if err != nil {
@@ -798,10 +800,11 @@ func (server *Server) registerCoreExecutors() {
 			return msg, err
 		}
 
+		step := 1
 		if opt.WITHSCORES {
-			return NewArrayMessageWithArray(array.ReverseBy(2)), nil
+			step = 2
 		}
-		return NewArrayMessageWithArray(array.Reverse()), nil
+		return NewArrayMessageWithArray(array.ReverseBy(step).LimitBy(step, offset, count)), nil
 	})
 
 	server.RegisterExexutor("ZREM", func(conn *Conn, cmd string, args Arguments) (*Message, error) {
